@@ -9,6 +9,25 @@ Here the consequences are stated.
 1. **`C03_run_same_meaning`** — two runs (any two texts, configurations, override lists) whose trees agree report THE SAME
    summary: the result depends on the gate-level meaning only.  `C03_run_same_meaning_total`: from `runModel` alone (the trees
    exist).
+2. **`C08_run_let_like_literal`** — lets behave like literals: for a parsed `c` and `c' = fill_in_let(c, ov)`, the run of `c`
+   under `ov` and the run of `c'` under no (or any) override report the same summary whenever both succeed.  In fact
+   (`C08_run_let_expand`, `C08_run_let_run`) the three passes give THE SAME expanded circuit, so the two runs agree as `Except`
+   values, as soon as `expand_subcircuits` accepts `c'` (`C08_run_let_like_literal_ok`; that it always does is
+   `C08_run_let_like_literal_succeeds_full`, not proved).  Proof: `expand_subcircuits` keeps the relation `FillIn.Rel` between a
+   circuit and its filled copy (`rel_spell`), the second `fill_in_let` therefore writes the S-expression the first one wrote
+   (`Passes.visitStmts_fixed`), and the builder cannot tell the two configurations apart (`Passes.rebuildCfg_congr`).
+3. **`C12_run_brackets_meaning`**, **`C08_run_visits_meaning`** — C12 and C08 lifted from "the walker skeleton of the expanded
+   circuit" to "the meaning of the program as written": the skeleton is `skelOf (spl x₁)`, its gate occurrences in flat order
+   are `x₁.flat` kind by kind, they are `Bracketed`, the number of subcircuits is `pairCount x₁.flat`; unrolled, the skeleton
+   reads `x₁.unroll`, and the visits are `execVisits` of it (every visit `< s.subcircuits`).
+   (`C08_run_visits_positions_full`, not proved: the same with positions of `x₁.flat` in place of addresses, `semVisits`.)
+4. **`C03_run_state`**, **`C03_run_state_norm`** — the property's sentence.  For any interpretation `U` of gate names and
+   classical arguments as matrices over any commutative semiring: the state the emulator's loop nests compute for every
+   subcircuit (`emuState`: `Emulator.runGatesFn` over the gates of the trace's segment, read in the table of the program's gate
+   applications — no string involved) is `U_j … U_1 |0…0⟩`, each matrix embedded on its RESOLVED qubits (`specState`), and has
+   norm one when every matrix is unitary.  Hypothesis kept explicit (decidable): `AppOK nq a` for every gate application `a` of
+   the program — its qubits are distinct and inside the `nq`-qubit register.  The run model does not check distinctness (nor
+   does the Python: `CX q[0] q[0]` is multiplied as it stands), so it cannot be derived.
 -/
 namespace Jaqal.RunModel
 open Jaqal Jaqal.Builder Jaqal.Sem Jaqal.Walk
@@ -175,6 +194,15 @@ theorem C08_run_visits_meaning (cfg : Config) (ov : List (String × Num)) (txt :
         simp only [List.length_cons]; omega
   simpa using this _ _ _ hx
 
+/-- NOT proved: `s.visits` written on the meaning tree alone, without the walker skeleton — `semVisits`: positions in the flat
+order of the tree's gate applications in place of the walkers' addresses.  Missing: the correspondence between the addresses
+of `flatToks body` (`gaddrs`, strictly increasing, hence injective) and the positions of `x₁.flat`, through `pairsFrom` and
+`Walk.unrollList`.  Evaluated on the examples below (`endCheck`). -/
+def C08_run_visits_positions_full : Prop :=
+  ∀ (cfg : Config) (ov : List (String × Num)) (txt : String) (s : RunSummary), runModel cfg ov txt = .ok s →
+    ∃ c c₁ x₁, Pipeline.parseProgram cfg txt = .ok c ∧ ExpandSubcircuits.expandSubcircuits none none c = .ok c₁ ∧
+      rawMeaning (FillIn.normOv ov) c₁ = .ok x₁ ∧ s.visits = semVisits x₁
+
 /-! ### 4. The state vector of every subcircuit -/
 
 section State
@@ -292,6 +320,7 @@ def endCheck (ov : List (String × Num)) (expectSub : Nat) (expectVisits expectB
       (match rawMeaning (FillIn.normOv ov) c₁ with
        | .ok x₁ =>
          s.subcircuits == pairCount x₁.flat && s.subcircuits == expectSub && s.visits == expectVisits &&
+         s.visits == semVisits x₁ && s.visits == semVisits (ExpandMacros.spl x₁) &&
          decide (∀ a ∈ specTable x₁, AppOK 3 a) && specTable x₁ == endT &&
          (match skelOf (ExpandMacros.spl x₁) with
           | some (body, _) =>
